@@ -22,4 +22,6 @@ def check(ctx, env):
     M.r7_2_st_send(ctx, prog)
     R.r7_3_glue(ctx, prog)
     R.r7_3_timeout_reason(ctx, prog)
+    # "ends the transaction": every event pushed for a response comes with transaction_finished (same rule as C05 R5.2)
+    R.r5_2_recv_final(ctx, prog, rule="R7.4")
     ctx.extra["exhaustive"] = True
